@@ -484,7 +484,7 @@ func TestC07Less(t *testing.T) {
 
 // TestC07Large: 9000 / 70000 trips and vehicles (and one update of 20000 stop time updates) in reversed and in rotated entity order.
 func TestC07Large(t *testing.T) {
-	largeRT(t, c07PermRec, [][2]int{{0, 9000}, {0, 100000}, {1, 20000}}, func(t *rapid.T, zone string, m *rgen.Msg) CaseC07Perm {
+	largeRT(t, c07PermRec, [][2]int{{0, 9000}, {0, 30000}, {0, 100000}, {1, 20000}}, func(t *rapid.T, zone string, m *rgen.Msg) CaseC07Perm {
 		n := len(m.Entities)
 		perm := make([]int, n)
 		rot := rapid.IntRange(0, max(0, n-1)).Draw(t, "rotateBy")
